@@ -78,6 +78,17 @@ def cases(tier, seed):
         for h in ([0, SAVE, "asc70000", SAVE, 1, SAVE], ["asc65536", SAVE, 0, SAVE], ["asc65535", SAVE, 0, SAVE], ["asc156671", SAVE, SAVE],
                   ["asc156671", SAVE, 0, SAVE], ["asc156672", SAVE], [0, "asc100000", SAVE, "asc50000", SAVE, 1, SAVE]):
             yield {"kind": kind, "hist": h}
+    # the container OBJECT itself (no host file): add, list, re-open from its bytes; additions that do not fit are refused and
+    # must leave everything stored so far in place - on the same object and after re-opening
+    osyms = [0, 4, 5, "big30", "big40", "R"]
+    for n in (2, 3, 4):
+        for tup in itertools.product(osyms, repeat=n):
+            if tup[0] == "R" or sum(1 for t in tup if isinstance(t, str) and t.startswith("big")) < 2 and n == 4:
+                continue
+            yield {"kind": "dsk", "obj": list(tup)}
+    for tup in itertools.product([0, 4, 1, "R"], repeat=3):
+        if tup[0] != "R":
+            yield {"kind": "cas", "obj": list(tup)}
     ex = exact_size_lengths()
     if ex:
         for pat in ("00", "ff", "dir"):
@@ -100,6 +111,8 @@ def file_of(case, sym):
 
 
 def cell_of(case):
+    if "obj" in case:
+        return "{}|obj|{}".format(case["kind"], ">".join(str(t) if isinstance(t, str) else ALPHA[t]["name"] for t in case["obj"]))
     if "fill" in case:
         return "{}|fill-to-capacity.{}".format(case["kind"], case["fill"])
 
@@ -125,6 +138,8 @@ def check_case(case):
         viol.append({"component": "history", "cell": cell, "symptom": symptom, "expected": str(expected)[:160], "observed": str(observed)[:160],
                      "input": case})
 
+    if "obj" in case:
+        return check_obj(case, cell, res, viol, bad)
     td = common.mkdtemp(prefix="c09_")
     path = os.path.join(td, "img." + kind)
     saved = []        # model: files in the image on the host
@@ -217,6 +232,55 @@ def check_case(case):
     return res
 
 
+def check_obj(case, cell, res, viol, bad):
+    from cocoasm.virtualfiles.cassette import CassetteFile
+    from cocoasm.virtualfiles.disk import DiskFile
+    kind = case["kind"]
+    cls = DiskFile if kind == "dsk" else CassetteFile
+    obj = cls()
+    model = []
+    steps = 0
+    for sym in case["obj"]:
+        steps += 1
+        if sym == "R":                      # re-open from the object's own bytes
+            try:
+                obj = cls(buffer=list(bytes(obj.get_buffer())))
+            except Exception as e:
+                t, w = common._raiser(e)
+                bad("re-open from bytes raised {}@{}".format(t, w), "container", repr(e)[:100])
+                break
+        else:
+            f = c07.fspec("ASC", int(sym[3:]) * 2304 - 5, sym.upper(), "TXT", pat="ramp7") if isinstance(sym, str) else ALPHA[sym]
+            gran = sum((x["n"] + c07.HDR[c07.kind_of(x)]) // 2304 + 1 for x in model + [f])
+            fits = kind == "cas" or gran <= 68
+            try:
+                obj.add_file(C.to_coco(f))
+                if not fits:
+                    bad("a file that does not fit was accepted", "refused", "{} granules needed".format(gran))
+                    break
+                model.append(f)
+            except Exception as e:
+                if fits:
+                    t, w = common._raiser(e)
+                    bad("add raised {}@{}".format(t, w), "stored", repr(e)[:100])
+                    break
+        try:
+            d = _compare(model, [C.listed_to_dict(x) for x in obj.list_files()], kind)
+            if d:
+                bad("after {} on one object: {}".format("a refused add" if sym != "R" and (not model or model[-1] is not f) else "re-open" if sym == "R" else "an add", d[0]), d[1], d[2])
+                break
+        except Exception as e:
+            t, w = common._raiser(e)
+            bad("listing raised {}@{} after {}".format(t, w, "a refused add" if sym != "R" and (not model or model[-1] is not f) else "re-open" if sym == "R" else "an add"), "listing", repr(e)[:100])
+            break
+    res["transitions"] = steps
+    res["state"] = "{}:obj:{}".format(kind, ",".join(C.brief(f) for f in model))
+    if viol:
+        res["viol"] = viol[:2]
+        res["outcome"] = "violation"
+    return res
+
+
 def _compare(model, listed, kind):
     # an empty cassette file is a recorded finding of C06: the comparison here is on the same terms (reported, not hidden)
     for i, s in enumerate(model):
@@ -235,7 +299,8 @@ def _compare(model, listed, kind):
 
 def describe(tier):
     return {
-        "alphabet": "operations add(f) for f in {} and save+re-open, on cassette and disk host files; ASCII files of 65535, 65536, 70000, 100000 bytes and of "
+        "alphabet": "operations add(f) for f in {} and save+re-open, on cassette and disk host files; histories of 2-4 steps on the container object itself "
+                    "(add small / BASIC / ASCII / 30- and 40-granule files, re-open from bytes; additions that do not fit must be refused and leave the rest in place); ASCII files of 65535, 65536, 70000, 100000 bytes and of "
                     "exactly / one more than the whole disk (156671 / 156672 bytes) in 7 histories per medium; big-cassette histories with 65535-byte "
                     "files of 5 content patterns (incl. planted directory entries) crossing 161,280 bytes, and three files whose cassette image is "
                     "exactly 161,280 bytes; fill-to-capacity histories (2-, 3-, 5-, 9-granule files and a mixture, one save/re-open per file, until the disk "
